@@ -27,6 +27,12 @@ Open Scope Z_scope.
 (* ------------------------------------------------------------------ *)
 (** * Keys, hex blobs, small helpers *)
 
+(** vm_compute is call-by-value: [a && b] evaluates [b] even when [a] is
+    false.  The evaluators below use these short-circuit forms; they are
+    [andb] / [orb] (lemmas [land_andb], [lor_orb] in SqlProofs.v). *)
+Notation "a &&& b" := (if a then b else false) (at level 40, left associativity).
+Notation "a ||| b" := (if a then true else b) (at level 50, left associativity).
+
 (** pre-image of the 64-bit event key:
     regular      int64(uint32(created_at))<<32 | xx(seed, id)
     (param)replaceable / tombstone  xx(seed, pubkey-part)<<32 | xx(seed, address) *)
@@ -36,8 +42,8 @@ Inductive ekey :=
 
 Definition ekey_eqb (a b : ekey) : bool :=
   match a, b with
-  | KReg s1 t1 i1, KReg s2 t2 i2 => (s1 =? s2) && (t1 =? t2) && str_eqb i1 i2
-  | KAddr s1 p1 a1, KAddr s2 p2 a2 => (s1 =? s2) && str_eqb p1 p2 && str_eqb a1 a2
+  | KReg s1 t1 i1, KReg s2 t2 i2 => (s1 =? s2) &&& (t1 =? t2) &&& str_eqb i1 i2
+  | KAddr s1 p1 a1, KAddr s2 p2 a2 => (s1 =? s2) &&& str_eqb a1 a2 &&& str_eqb p1 p2
   | _, _ => false
   end.
 
@@ -56,7 +62,7 @@ Fixpoint even_len {A} (l : list A) : bool :=
   | _ :: _ :: l' => even_len l'
   end.
 
-Definition hex_ok (s : str) : bool := even_len s && forallb is_hex_char s.
+Definition hex_ok (s : str) : bool := even_len s &&& forallb is_hex_char s.
 
 Definition lower_char (c : N) : N := (if (65 <=? c) && (c <=? 70) then c + 32 else c)%N.
 Definition hexl (s : str) : str := List.map lower_char s.
@@ -105,7 +111,7 @@ Record db := mkDb {
 Definition empty_db : db := mkDb None [] [] [] [] [].
 
 Definition trow_eqb (a b : trow) : bool :=
-  str_eqb (t_hash a) (t_hash b) && (t_ts a =? t_ts b) && ekey_eqb (t_key a) (t_key b).
+  str_eqb (t_hash a) (t_hash b) &&& (t_ts a =? t_ts b) &&& ekey_eqb (t_key a) (t_key b).
 
 (* ------------------------------------------------------------------ *)
 (** * getEventKey *)
@@ -212,7 +218,7 @@ Definition k5_dids (e : event) : list (str * str) :=
 Definition insert_params (seed : Z) (e : event) : option (ekey * event) :=
   match get_event_key seed e with
   | None => None
-  | Some k => if hex_ok (ev_id e) && hex_ok (ev_pk e) && hex_ok (ev_sig e) then Some (k, e) else None
+  | Some k => if hex_ok (ev_id e) &&& hex_ok (ev_pk e) &&& hex_ok (ev_sig e) then Some (k, e) else None
   end.
 
 Fixpoint filter_map {A B} (f : A -> option B) (l : list A) : list B :=
@@ -248,8 +254,8 @@ Fixpoint upsert (rows : list erow) (new : erow) : list erow * upres :=
 Definition set_add {A} (eqb : A -> A -> bool) (x : A) (l : list A) : list A :=
   if existsb (eqb x) l then l else l ++ [x].
 
-Definition dkey_eqb (a b : ekey * str) : bool := ekey_eqb (fst a) (fst b) && str_eqb (snd a) (snd b).
-Definition did_eqb (a b : str * str) : bool := str_eqb (fst a) (fst b) && str_eqb (snd a) (snd b).
+Definition dkey_eqb (a b : ekey * str) : bool := str_eqb (snd a) (snd b) &&& ekey_eqb (fst a) (fst b).
+Definition did_eqb (a b : str * str) : bool := str_eqb (fst a) (fst b) &&& str_eqb (snd a) (snd b).
 
 (** loop body of insertEvents for one parameter set; the second component is
     the number of statement executions (driver calls) it made *)
@@ -367,18 +373,18 @@ Definition sort_desc {A} (ts : A -> Z) (l : list A) : list A := fold_right (inse
 
 (** the two `not exists` tombstone tests *)
 Definition tomb_free (s : db) (r : erow) : bool :=
-  negb (existsb (fun d => ekey_eqb (fst d) (r_key r) && str_eqb (snd d) (r_pk r)) (d_dkeys s)) &&
-  negb (existsb (fun d => str_eqb (fst d) (r_id r) && str_eqb (snd d) (r_pk r)) (d_dids s)).
+  negb (existsb (fun d => str_eqb (snd d) (r_pk r) &&& ekey_eqb (fst d) (r_key r)) (d_dkeys s)) &&&
+  negb (existsb (fun d => str_eqb (fst d) (r_id r) &&& str_eqb (snd d) (r_pk r)) (d_dids s)).
 
 (** number of rows of `events AS x` joined ON (event_key, created_at) and
     satisfying [p] *)
 Definition self_join_count (s : db) (r : erow) (p : erow -> bool) : nat :=
-  length (filter (fun r' => ekey_eqb (r_key r') (r_key r) && (r_ts r' =? r_ts r) && p r') (d_events s)).
+  length (filter (fun r' => (r_ts r' =? r_ts r) &&& ekey_eqb (r_key r') (r_key r) &&& p r') (d_events s)).
 
 (** number of rows of `event_tags AS etag<key>` joined ON (event_key,
     created_at) whose hash is in the list *)
 Definition tag_join_count (s : db) (r : erow) (hashes : list str) : nat :=
-  length (filter (fun t => ekey_eqb (t_key t) (r_key r) && (t_ts t =? r_ts r) && mem_str (t_hash t) hashes)
+  length (filter (fun t => (t_ts t =? r_ts r) &&& ekey_eqb (t_key t) (r_key r) &&& mem_str (t_hash t) hashes)
                  (d_tags s)).
 
 Definition opt_count {A} (o : option A) (f : A -> nat) : nat :=
@@ -408,7 +414,7 @@ Definition sub_mult (s : db) (f : rfilter) (ids authors : option (list str)) (r 
       fold_right (fun nv acc => (tag_join_count s r (List.map (fun v => fst nv ++ v) (snd nv)) * acc)%nat) 1%nat m))%nat.
 
 Definition sub_rows (s : db) (f : rfilter) (ids authors : option (list str)) : list erow :=
-  flat_map (fun r => if tomb_free s r && since_ok f (r_ts r) && until_ok f (r_ts r)
+  flat_map (fun r => if since_ok f (r_ts r) &&& until_ok f (r_ts r) &&& tomb_free s r
                      then repeat r (sub_mult s f ids authors r) else [])
            (d_events s).
 
